@@ -62,6 +62,27 @@ def gen_cases(tier, rng):
         exp = 'reject' if common else 'vi0=[%s];vi1=[%s]' % (','.join(map(str, la)), ','.join(map(str, lb)))
         cases.append('H:f=0 arg:a:vi0: arg:b:vi1: con:disjoint:a;b %s exp:%s mut:%s'
                      % (A.argv_tok(w), exp, 'break-value-constraint' if common else 'none'))
+    # exhaustive small scope for constraint lists that share entries: flags a and b with two-entry requires /
+    # excludes lists over the int arguments c, d, e (every ordered pair for each), a and b used in both orders, then
+    # every subset of c, d, e.  Accepted exactly when all required arguments are used / no excluded argument is used.
+    pairs = list(itertools.permutations('cde', 2))
+    for kind_ in ('req', 'excl'):
+        for la, lb in itertools.product(pairs, pairs):
+            defs = ('arg:a:b0:init=0/%s=%s arg:b:b1:init=0/%s=%s arg:c:i0: arg:d:i1: arg:e:i2:'
+                    % (kind_, ';'.join(la), kind_, ';'.join(lb)))
+            for first in ('ab', 'ba'):
+                for used in itertools.product([0, 1], repeat=3):
+                    tail = [nm for nm, u_ in zip('cde', used) if u_]
+                    w = ['-' + first[0], '-' + first[1]] + [x for nm in tail for x in ('-' + nm, '5')]
+                    refd = set(la) | set(lb)
+                    ok = refd <= set(tail) if kind_ == 'req' else not (refd & set(tail))
+                    if ok:
+                        exp = 'b0=1;b1=1;' + ';'.join('i%d=%d' % (j, 5 if nm in tail else 0) for j, nm in enumerate('cde'))
+                        cases.append('H:f=0 %s %s exp:%s mut:none' % (defs, A.argv_tok(w), exp))
+                    else:
+                        cases.append('H:f=0 %s %s exp:reject mut:%s' % (defs, A.argv_tok(w),
+                                     'required-missing' if kind_ == 'req' else 'excluded-after'))
+    n += len(cases)
     guard = 0
     while len(cases) < n and guard < n * 30:
         guard += 1
@@ -136,7 +157,8 @@ CLAIM = {
             'missing values, checks (inclusive lower / exclusive upper), cardinality, exclusion in every spelling, '
             'and the end-of-line checks for ANY argv. The pinned notification by spelling is proved wrong '
             '(C02_pinned_notify_refuted) and was repaired. Model tied to the code by correspondence on rule-breaking '
-            'mutations of valid lines and exhaustive small scopes for differ / disjoint.',
+            'mutations of valid lines and exhaustive small scopes for differ / disjoint and for requires / excludes lists '
+            'that share entries.',
     'note': 'the grammar form assumes that requires/excludes lists name each argument in one way '
             '(specs_canonical; the other case is covered by the tie) and speaks about the spellings of ArgH/Spell.v; '
             'destination kinds and features outside the model are listed in the evidence assumptions. trusted: Coq '
